@@ -6,7 +6,10 @@ import vlib, xslib
 from xslib import R2, R3
 
 CLAUSES = {"DrainedMemory", "DrainedPersistent", "AllExportsReturned", "NoGoroutineLeft", "NoExportAfterReturn",
-           "ExactlyOnceIfNoFailure", "ShutdownReturns"}
+           "ExactlyOnceIfNoFailure", "ShutdownReturns",
+           # "still durably stored for the next start": measured by the next start itself -- the driver brings a second incarnation
+           # up over the same storage and it must export what was left (seeded change C03-6 left the body in storage but unreachable)
+           "StoredIsRedelivered"}
 
 
 def run(c):
